@@ -341,6 +341,25 @@ def table_inputs(name, m, sv, limit=1500):
 
 # ------------------------------------------------------------------------------------------ code literals
 
+def code_chars(m):
+    """Single ASCII letters that occur as literals in the code of the module's own functions (a type / prefix letter)."""
+    import types
+    out = []
+
+    def consts(code, depth=0):
+        for c in code.co_consts:
+            if isinstance(c, str) and len(c) == 1 and c.isascii() and c.isalpha():
+                out.append(c)
+            elif isinstance(c, (tuple, frozenset)):
+                out.extend(x for x in c if isinstance(x, str) and len(x) == 1 and x.isascii() and x.isalpha())
+            elif isinstance(c, types.CodeType) and depth < 3:
+                consts(c, depth + 1)
+    for k, v in sorted(vars(m).items()):
+        if isinstance(v, types.FunctionType) and v.__module__ == m.__name__:
+            consts(v.__code__)
+    return list(dict.fromkeys(out))
+
+
 def code_literals(m):
     """Alphanumeric string literals (2..40 characters) in the code of the module's own functions: the values
     the code compares its argument with (special prefixes, reserved numbers, exempt ranges)."""
@@ -446,6 +465,10 @@ def literal_inputs(name, m, sv, limit=1200):
                 out += [u, lit + u]
         for u in valid[:6]:
             out += [lit + u, lit + ' ' + u]
+    # single letters of the code as a prefix / suffix of the documented numbers
+    for ch in code_chars(m)[:12]:
+        for x in xs:
+            out += [ch + x, ch + '-' + x, x + ch, ch.lower() + x]
     out = list(dict.fromkeys(valid + out))
     return out[:limit]
 
